@@ -158,8 +158,10 @@ def unit_scaling_backend(
                 # instead substituted for its unit scaled equivalent here.
                 if not is_residual_add:
                     logger.info("unit scaling function: %s", node)
-                    args = (*node.args, None)  # None denotes unconstrained
-                    replace_node_with_function(graph, node, U.add, args=args)
+                    # Unconstrained. Passed by keyword, as `_unconstrain_node()` may
+                    # later set the same keyword on this node
+                    kwargs = dict(node.kwargs, constraint=None)
+                    replace_node_with_function(graph, node, U.add, kwargs=kwargs)
 
         # Replace nodes marked as residual-adds with unit scaled equivalent
         for node in graph.nodes:
